@@ -7,6 +7,7 @@ package main
 
 import (
 	"crypto/sha256"
+	"database/sql"
 	"encoding/base64"
 	"encoding/hex"
 	"fmt"
@@ -16,9 +17,11 @@ import (
 	"os"
 	"path/filepath"
 	"strings"
+	"sync"
 	"time"
 
 	"raven/internal/blobstorage"
+	"raven/internal/db"
 	"raven/internal/delivery/storage"
 	"raven/verifh/fakes3"
 	"raven/verifh/hx"
@@ -117,6 +120,7 @@ func main() {
 		}
 	}
 	undecodableTwins(rep)
+	concurrentTwins(rep)
 	localBlobStoreRefuses(rep, false)
 	localBlobStoreRefuses(rep, true)
 	rep.Finish()
@@ -565,4 +569,98 @@ func undecodableTwins(rep *hx.Report) {
 func hxWorkDir() string {
 	d, _ := os.Getwd()
 	return d
+}
+
+// concurrentTwins: the same new out-of-line content arrives in several deliveries at once (a newsletter to many recipients,
+// through two database managers as the delivery and IMAP services have them), next to private attachments of the same size. A
+// schedule rather than luck: another connection holds the write lock of the shared database for a moment, so that every
+// delivery gets past its look-up by hash — reads are not blocked — and queues up at its first write. Every acknowledged
+// message reads back its own octets, and the reference count of the shared content is the number of messages that carry it.
+func concurrentTwins(rep *hx.Report) {
+	dir, cleanup := hx.WorkDir("c15c")
+	defer cleanup()
+	w, err := world.New(dir, "example.com")
+	if err != nil {
+		rep.Violate("broken-correspondence", "world", err.Error(), nil)
+		return
+	}
+	defer w.Close()
+	mgr2, err := db.NewDBManager(dir + "/data")
+	if err != nil {
+		rep.Violate("broken-correspondence", "world", err.Error(), nil)
+		return
+	}
+	defer mgr2.Close()
+	stor2 := storage.NewStorage(mgr2)
+	for round := 0; round < 4; round++ {
+		k := []int{2, 4, 6, 3}[round]
+		news := fmt.Sprintf("NEWS-%d ", round) + strings.Repeat(fmt.Sprintf("newsletter line %d\r\n", round), 70)
+		var users []string
+		for i := 0; i < k; i++ {
+			u := fmt.Sprintf("ct%dx%d@example.com", round, i)
+			w.Login(u).Close()
+			users = append(users, u)
+		}
+		var hold *sql.Tx
+		hdb, err := sql.Open("sqlite3", "file:"+dir+"/data/shared.db?_txlock=immediate&_busy_timeout=5000")
+		if err == nil {
+			if tx, err := hdb.Begin(); err == nil {
+				hold = tx
+			}
+		}
+		acked := make([]bool, k)
+		var wg sync.WaitGroup
+		for i := 0; i < k; i++ {
+			wg.Add(1)
+			go func(i int) {
+				defer wg.Done()
+				big := news
+				if i%3 == 2 {
+					big = fmt.Sprintf("BIGPRIV-%d-%d ", round, i) + strings.Repeat(fmt.Sprintf("private line %d %d\r\n", round, i), 70)
+				}
+				m := fmt.Sprintf("From: sender@example.org\r\nTo: rcpt@example.com\r\nSubject: ct %d %d\r\nMIME-Version: 1.0\r\nContent-Type: multipart/mixed; boundary=nb\r\n\r\n--nb\r\nContent-Type: text/plain\r\n\r\nPRIV-%d-%d small\r\n--nb\r\nContent-Type: text/plain; name=\"big.txt\"\r\nContent-Disposition: attachment; filename=\"big.txt\"\r\n\r\n%s--nb--\r\n", round, i, round, i, big)
+				st := w.Stor
+				if i%2 == 1 {
+					st = stor2
+				}
+				_, data := w.DeliverWith(st, "sender@example.org", []string{users[i]}, m)
+				acked[i] = len(data) == 1 && strings.HasPrefix(data[0], "2")
+			}(i)
+		}
+		if hold != nil {
+			time.Sleep(400 * time.Millisecond)
+			hold.Commit()
+		}
+		wg.Wait()
+		if hdb != nil {
+			hdb.Close()
+		}
+		for i, u := range users {
+			rep.Case(fmt.Sprintf("concurrent-twins|%d|%d", round, i), true)
+			if !acked[i] {
+				rep.Hit("concurrent-twins:refused")
+				continue
+			}
+			c := w.Login(u)
+			c.Cmd("EXAMINE INBOX")
+			txt := strings.Join(c.Cmd("FETCH 1:* (BODY.PEEK[])").Untagged, "\n")
+			c.Close()
+			want := fmt.Sprintf("NEWS-%d ", round)
+			if i%3 == 2 {
+				want = fmt.Sprintf("BIGPRIV-%d-%d ", round, i)
+			}
+			if !strings.Contains(txt, fmt.Sprintf("PRIV-%d-%d small", round, i)) || !strings.Contains(txt, want) || strings.Count(txt, "line") < 70 {
+				rep.Violate("impl-violation", "each part returns its own octets (Props.C15.no_fault_readback_partial: the same new content stored by several writers at once)", fmt.Sprintf("round %d: the message for %s was acknowledged and does not read back with its own attachment (%q…): BODY[] has %d octets: %q", round, u, want, len(txt), clipTo(txt, 300)), []string{"concurrent-twins"})
+				return
+			}
+			rep.Hit("concurrent-twins:own-octets")
+		}
+	}
+}
+
+func clipTo(s string, n int) string {
+	if len(s) > n {
+		return s[len(s)-n:]
+	}
+	return s
 }
